@@ -35,7 +35,8 @@ def detect_xspf_header(data):
         data = io.BytesIO(data)
         for _event, element in ET.iterparse(data, events=["start"]):
             return element.tag.lower() == "{http://xspf.org/ns/0/}playlist"
-    except ET.ParseError:
+    except (ET.ParseError, LookupError, ValueError):
+        # LookupError/ValueError: unknown or unsupported encoding declared
         pass
     return False
 
@@ -49,7 +50,8 @@ def detect_asx_header(data):
         data = io.BytesIO(data)
         for _event, element in ET.iterparse(data, events=["start"]):
             return element.tag.lower() == "asx"
-    except ET.ParseError:
+    except (ET.ParseError, LookupError, ValueError):
+        # LookupError/ValueError: unknown or unsupported encoding declared
         pass
     return False
 
@@ -102,7 +104,8 @@ def parse_xspf(data):
         # Last element will be root.
         for _event, element in ET.iterparse(io.BytesIO(data)):
             element.tag = element.tag.lower()  # normalize
-    except ET.ParseError:
+    except (ET.ParseError, LookupError, ValueError):
+        # LookupError/ValueError: unknown or unsupported encoding declared
         return
     if element is None:
         return
@@ -121,7 +124,8 @@ def parse_asx(data):
         # Last element will be root.
         for _event, element in ET.iterparse(io.BytesIO(data)):
             element.tag = element.tag.lower()  # normalize
-    except ET.ParseError:
+    except (ET.ParseError, LookupError, ValueError):
+        # LookupError/ValueError: unknown or unsupported encoding declared
         return
     if element is None:
         return
